@@ -36,6 +36,12 @@ use directive_tree::DirectiveTree;
 
 type LogicalLineRef = usize;
 
+/// Verification hook: the conditional-directive passes the parser iterates over.
+#[cfg(feature = "verif-hooks")]
+pub fn verif_directive_passes(tokens: &[RawToken]) -> Vec<Vec<usize>> {
+    DirectiveTree::parse(tokens).passes().collect()
+}
+
 pub struct DelphiLogicalLineParser {}
 impl LogicalLineParser for DelphiLogicalLineParser {
     fn parse<'a>(&self, mut input: Vec<RawToken<'a>>) -> (Vec<LogicalLine>, Vec<Token<'a>>) {
